@@ -4,6 +4,7 @@
 package main
 
 import (
+	"errors"
 	"fmt"
 	"regexp"
 	"sort"
@@ -11,6 +12,8 @@ import (
 	"strings"
 	"time"
 	"unicode/utf8"
+
+	"golang.org/x/crypto/bcrypt"
 
 	"github.com/tinode/chat/server/auth"
 	_ "github.com/tinode/chat/server/auth/basic"
@@ -221,6 +224,49 @@ func (u *fakeUsers) dump() string {
 // copy of the policy of auth_basic.go (the model takes the policy verdict as a given)
 var c12LoginPattern = regexp.MustCompile(`^[\pL\pN][_.\pL\pN]*[\pL\pN]+$`)
 
+// c12BcryptClassE names a bcrypt error the way coq/Pure/Basic.v (bcerr) does.
+func c12BcryptClassE(err error) string {
+	var pe bcrypt.InvalidHashPrefixError
+	var ve bcrypt.HashVersionTooNewError
+	var ce bcrypt.InvalidCostError
+	var ne *strconv.NumError
+	switch {
+	case err == nil:
+		return "none"
+	case errors.Is(err, bcrypt.ErrHashTooShort):
+		return "short"
+	case errors.As(err, &pe):
+		return "prefix"
+	case errors.As(err, &ve):
+		return "version"
+	case errors.As(err, &ne):
+		return "costsyntax"
+	case errors.As(err, &ce):
+		return "costrange"
+	}
+	return "other"
+}
+
+// c12BcryptRefE is the driver's own reference for "the stored bytes match the password":
+// golang.org/x/crypto/bcrypt called directly, three-valued: m (nil) / x (mismatch) / e-<class>.
+var c12BcryptCacheE = map[string]string{}
+
+func c12BcryptRefE(stored, pw []byte) string {
+	k := tohex(stored) + ":" + tohex(pw)
+	if v, ok := c12BcryptCacheE[k]; ok {
+		return v
+	}
+	err := bcrypt.CompareHashAndPassword(stored, pw)
+	v := "e-" + c12BcryptClassE(err)
+	if err == nil {
+		v = "m"
+	} else if errors.Is(err, bcrypt.ErrMismatchedHashAndPassword) {
+		v = "x"
+	}
+	c12BcryptCacheE[k] = v
+	return v
+}
+
 // B min_login_length min_password_length op...
 func c12Basic(w []string) string {
 	us := &fakeUsers{rows: map[string]*authRow{}}
@@ -251,7 +297,13 @@ func c12Basic(w []string) string {
 		pok := utf8.RuneCountInString(s[i+1:]) >= minPw
 		aux = append(aux, fmt.Sprintf("lo=%s:%s:%s:%s", tohex(secret), tohex([]byte(low)), b2s(lok), b2s(pok)))
 	}
-	for _, op := range w[3:] {
+	bcSeen := map[string]bool{}
+	storedOf := func(i int, uid types.Uid) {
+		if _, r := us.find(uid, "basic"); r != nil {
+			aux = append(aux, fmt.Sprintf("h%d=%s", i, tohex(r.secret)))
+		}
+	}
+	for i, op := range w[3:] {
 		f := strings.Split(op, ":")
 		switch f[0] {
 		case "ADD":
@@ -262,10 +314,36 @@ func c12Basic(w []string) string {
 				res = append(res, "ADD:err:"+errName(err))
 			} else {
 				res = append(res, fmt.Sprintf("ADD:ok:%d", int(rec.AuthLevel)))
+				storedOf(i, types.Uid(atou(f[1])))
+			}
+		case "RAW": // RAW:uid:hex|-|nil  the store anomaly: the secret column of the user's row holds these bytes
+			var raw []byte
+			if f[2] != "nil" {
+				raw = unhex(f[2])
+			}
+			if _, r := us.find(types.Uid(atou(f[1])), "basic"); r == nil {
+				res = append(res, "RAW:err:notfound")
+			} else {
+				r.secret = raw
+				_, herr := bcrypt.Cost(raw) // newFromHash alone
+				res = append(res, "RAW:ok:"+c12BcryptClassE(herr))
 			}
 		case "AUTH":
 			secret := unhex(f[1])
 			note(secret)
+			// the reference, computed before and independently of the authenticator under test
+			ref := "norow"
+			if k := strings.Index(string(secret), ":"); k >= 0 {
+				if r, ok := us.rows["basic:"+strings.ToLower(string(secret[:k]))]; ok {
+					ref = c12BcryptRefE(r.secret, secret[k+1:])
+					e := tohex(r.secret) + ":" + tohex(secret[k+1:]) + ":" + ref
+					if !bcSeen[e] {
+						bcSeen[e] = true
+						aux = append(aux, "bc="+e)
+					}
+				}
+			}
+			aux = append(aux, fmt.Sprintf("ref%d=%s", i, ref))
 			rec, _, err := a.Authenticate(secret, "")
 			if err != nil {
 				res = append(res, "AUTH:err:"+errName(err))
@@ -280,6 +358,7 @@ func c12Basic(w []string) string {
 				res = append(res, "UPD:err:"+errName(err))
 			} else {
 				res = append(res, "UPD:ok")
+				storedOf(i, types.Uid(atou(f[1])))
 			}
 		case "ADV":
 			d := time.Duration(atoi(f[1])) * time.Second
